@@ -6,6 +6,10 @@ From CB Require Import Gen GenProofs Machine MachineFacts SeqlockInv GenCyc.
 Import ListNotations.
 Open Scope nat_scope.
 
+Section Gen.
+Context {RF : RecFun}.
+
+
 Lemma loc_eqb_eq a b : loc_eqb a b = true <-> a = b.
 Proof.
   destruct a, b; cbn; split; intros H; try discriminate; try reflexivity.
@@ -79,7 +83,7 @@ Theorem accept_one_attempt n L q1 e1 cur1 cur2 q2 e2 (cells : list (nat * nat)) 
   (forall i p, In (i, p) cells -> i < n) ->
   legal L cur2 LGen q2 -> q1 <= q2 -> ev L q2 = Some e2 -> e_val e2 = e_val e1 ->
   0 < e_att e1 /\ e_kind e1 = KEven /\
-  forall i p, In (i, p) cells -> val_at L p = nth i (rec_of n (e_att e1)) 0%Z.
+  forall i p, In (i, p) cells -> val_at L p = nth i (recf n (e_att e1)) 0%Z.
 Proof.
   intros LI GC Hwin E1 El1 Hev Hnz Hrel1 Hc12 Hcells Hlt Hleg2 Hq12 E2 Hval.
   destruct (even_gen_event_cyc n L q1 e1 LI GC E1 El1 Hev Hnz) as (K1 & A1 & V1).
@@ -241,23 +245,24 @@ Proof.
 Qed.
 
 (* ------------------------------------------------------------------ an accepted record is one completed write() *)
-Lemma rec_of_nth n a i : i < n -> nth i (rec_of n a) 0%Z = (if Nat.eqb i 6 then Z.of_nat a mod 3 else 1000 * Z.of_nat a + Z.of_nat i)%Z.
+Lemma list_as_map (l : list Z) : l = map (fun i => nth i l 0%Z) (seq 0 (length l)).
 Proof.
-  intros Hi. unfold rec_of.
-  set (f := fun i0 : nat => (if Nat.eqb i0 6 then Z.of_nat a mod 3 else 1000 * Z.of_nat a + Z.of_nat i0)%Z).
-  rewrite (nth_indep _ 0%Z (f 0)) by (rewrite map_length, seq_length; exact Hi).
-  rewrite map_nth, seq_nth by exact Hi. reflexivity.
+  apply (nth_ext _ _ 0%Z 0%Z).
+  - rewrite map_length, seq_length. reflexivity.
+  - intros k Hk. symmetry.
+    rewrite (nth_indep (map (fun i => nth i l 0%Z) (seq 0 (length l))) 0%Z (nth 0 l 0%Z)) by (rewrite map_length, seq_length; exact Hk).
+    rewrite (map_nth (fun i => nth i l 0%Z) (seq 0 (length l)) 0 k), seq_nth by exact Hk. reflexivity.
 Qed.
 
 Lemma assemble_rec n (acc : list (nat * Z)) a :
   (forall i, i < n -> exists x, In (i, x) acc) ->
-  (forall i x, In (i, x) acc -> x = nth i (rec_of n a) 0%Z) ->
-  assemble n acc = rec_of n a.
+  (forall i x, In (i, x) acc -> x = nth i (recf n a) 0%Z) ->
+  assemble n acc = recf n a.
 Proof.
-  intros Hall Hval. unfold assemble, rec_of. apply map_ext_in. intros i Hin. apply in_seq in Hin.
+  intros Hall Hval. rewrite (list_as_map (recf n a)), recf_len. unfold assemble. apply map_ext_in. intros i Hin. apply in_seq in Hin.
   destruct (find (fun p : nat * Z => Nat.eqb (fst p) i) acc) as [[j x]|] eqn:F.
   - apply find_some in F as [Hin' Hf]. cbn in Hf. apply Nat.eqb_eq in Hf. subst j. cbn [snd].
-    rewrite (Hval i x Hin'). apply rec_of_nth. lia.
+    apply (Hval i x Hin').
   - exfalso. destruct (Hall i ltac:(lia)) as (x & Hx). pose proof (find_none _ _ F (i, x) Hx) as N. cbn in N. rewrite Nat.eqb_refl in N. discriminate.
 Qed.
 
@@ -282,7 +287,7 @@ Proof. intros H _. lia. Qed.
 Theorem r_step_accept_pos c L r ch r' it : safe_cfg c = true -> LogInv (c_cells c) L -> GenCyc L -> window_ok L r ->
   RInv c L r -> r_step c L r ch = Some (r', it, Some RetFresh) ->
   exists e, ev L (r_g1pos r) = Some e /\ e_loc e = LGen /\ e_kind e = KEven /\ 0 < e_att e /\
-            r_cache r' = rec_of (c_cells c) (e_att e) /\ r_g1pos r <= coh_gen (r_view r') /\
+            r_cache r' = recf (c_cells c) (e_att e) /\ r_g1pos r <= coh_gen (r_view r') /\
             r_cache_gen r' = e_val e /\ e_val e <> 0%Z.
 Proof.
   intros Hs LI GC Hw (Hcu & Hac & H) S. destruct (safe_parts c Hs) as (_ & _ & _ & _ & _ & _ & Pr & Hn).
@@ -318,7 +323,7 @@ Qed.
 
 Theorem r_step_accept c L r ch r' it : safe_cfg c = true -> LogInv (c_cells c) L -> GenCyc L -> window_ok L r ->
   RInv c L r -> r_step c L r ch = Some (r', it, Some RetFresh) ->
-  exists a q e, 0 < a /\ ev L q = Some e /\ e_kind e = KEven /\ e_att e = a /\ r_cache r' = rec_of (c_cells c) a.
+  exists a q e, 0 < a /\ ev L q = Some e /\ e_kind e = KEven /\ e_att e = a /\ r_cache r' = recf (c_cells c) a.
 Proof.
   intros Hs LI GC Hw RI S. destruct (r_step_accept_pos c L r ch r' it Hs LI GC Hw RI S) as (e & E & _ & K & A & C & _).
   exists (e_att e), (r_g1pos r), e. auto.
@@ -326,7 +331,7 @@ Qed.
 
 (* ------------------------------------------------------------------ the cached record *)
 Definition published (c : cfg) (L : list event) (rec : list Z) : Prop :=
-  exists a q e, 0 < a /\ ev L q = Some e /\ e_kind e = KEven /\ e_att e = a /\ rec = rec_of (c_cells c) a.
+  exists a q e, 0 < a /\ ev L q = Some e /\ e_kind e = KEven /\ e_att e = a /\ rec = recf (c_cells c) a.
 
 Definition CacheOk (c : cfg) (L : list event) (r : rst) : Prop :=
   r_cache r = repeat 0%Z (c_cells c) \/ published c L (r_cache r).
@@ -408,8 +413,8 @@ Proof.
   - (* writer step *)
     set (starting := match w_pc (m_w m) with WIdle => true | _ => false end) in *.
     set (k := if starting then Datatypes.S (m_nrec m) else m_nrec m) in *.
-    destruct (w_step c (m_w m) (rec_of (c_cells c) k) k) as [w' [it|]] eqn:W; inversion St; subst m' o; clear St; cbn [m_nrec m_w] in *.
-    + assert (Hk : w_pc (m_w m) = WIdle -> w_att (m_w m) < k /\ rec_of (c_cells c) k = rec_of (c_cells c) k).
+    destruct (w_step c (m_w m) (recf (c_cells c) k) k) as [w' [it|]] eqn:W; inversion St; subst m' o; clear St; cbn [m_nrec m_w] in *.
+    + assert (Hk : w_pc (m_w m) = WIdle -> w_att (m_w m) < k /\ recf (c_cells c) k = recf (c_cells c) k).
       { intros E. unfold k, starting. rewrite E. pose proof (M_att _ _ I). split; [lia | reflexivity]. }
       pose proof (w_step_inv c (m_w m) _ k w' (Some it) Hs WI Hk W) as WI'.
       destruct (w_step_log _ _ _ _ _ _ W) as (x & Ex).
@@ -636,3 +641,5 @@ Proof.
   destruct (m_step_inv_win c m t m1 o1 Hs I Ht S1 Hw0) as (I1 & _).
   apply (IH m1 m2 o2 I1 Hts' R2 Hn).
 Qed.
+
+End Gen.
